@@ -124,9 +124,17 @@ type entryResult struct {
 func modelToStrings(m map[string]smt.ModelVal) map[string]string {
 	out := map[string]string{}
 	for k, v := range m {
-		out[k] = v.String()
+		out[bareName(k)] = v.String()
 	}
 	return out
+}
+
+// bareName strips the per-entry namespace prefix ("H_Cxx_entry!") from an SMT symbol name.
+func bareName(k string) string {
+	if i := strings.Index(k, "!"); i >= 0 && strings.HasPrefix(k, "H_C") {
+		return k[i+1:]
+	}
+	return k
 }
 
 func sortFromName(s string) smt.Sort {
@@ -145,7 +153,7 @@ func sortFromName(s string) smt.Sort {
 	return smt.BV(64)
 }
 
-func regionTerm(f Finding) *smt.Term {
+func regionTerm(f Finding, prefix string) *smt.Term {
 	if f.Region == "" {
 		return smt.True
 	}
@@ -155,10 +163,17 @@ func regionTerm(f Finding) *smt.Term {
 		names = append(names, n)
 	}
 	sort.Strings(names)
+	var binds []string
 	for _, n := range names {
-		syms = append(syms, smt.Var(n, sortFromName(f.Symbols[n])))
+		v := smt.Var(prefix+n, sortFromName(f.Symbols[n]))
+		syms = append(syms, v)
+		binds = append(binds, "("+smt.SymName(n)+" "+smt.SymName(prefix+n)+")")
 	}
-	return smt.Raw(f.Region, syms...)
+	text := f.Region
+	if len(binds) > 0 {
+		text = "(let (" + strings.Join(binds, " ") + ") " + f.Region + ")"
+	}
+	return smt.Raw(text, syms...)
 }
 
 func loadFindings(verif string) ([]Finding, error) {
@@ -439,6 +454,8 @@ func runEntry(cfg Config, prog *symex.Program, e entryInfo, findings []Finding) 
 	defer router.Close()
 	m := symex.NewMachine(prog, router)
 	m.Verbose = cfg.Verbose
+	m.Prefix = e.Name + "!"
+	prefix := m.Prefix
 	paths, complete := m.Explore(fn, maxPaths, budget)
 	res.Paths = len(paths)
 	res.Complete = complete
@@ -486,7 +503,7 @@ func runEntry(cfg Config, prog *symex.Program, e entryInfo, findings []Finding) 
 			fs := myFindings[ar.Label]
 			var regions []*smt.Term
 			for _, f := range fs {
-				regions = append(regions, regionTerm(f))
+				regions = append(regions, regionTerm(f, prefix))
 			}
 			syms := symsFor(ar.Draws, q)
 			if len(fs) > 0 {
@@ -617,14 +634,6 @@ func symsFor(draws []string, q []*smt.Term) []*smt.Term {
 		if !seen[v.Name] {
 			seen[v.Name] = true
 			out = append(out, v)
-		}
-	}
-	for _, d := range draws {
-		if !seen[d] {
-			if v := smt.LookupVar(d); v != nil {
-				seen[d] = true
-				out = append(out, v)
-			}
 		}
 	}
 	return out
